@@ -46,7 +46,8 @@ Print Assumptions c06_after_modifier.
 Theorem c06_after_noop_modifier_partial : forall E fresh m c c' evs,
   wf_contact E c -> mod_wf E m ->
   apply E fresh m c = (c', evs, false) ->
-  erase c' = erase c /\ (Consistent E c -> Consistent E c') /\ wf_contact E c'.
+  erase c' = erase c /\ (Consistent E c -> Consistent E c') /\ wf_contact E c'
+  /\ (NoStaticIfInactive E c -> NoStaticIfInactive E c').
 Proof. exact after_noop_modifier. Qed.
 Print Assumptions c06_after_noop_modifier_partial.
 
@@ -57,6 +58,15 @@ Theorem c06_after_noop_modifier_refuted :
     wf_contact E c /\ mod_wf E m /\ apply E fresh m c = (c', evs, false) /\ ~ Consistent E c'.
 Proof. exact after_noop_modifier_refuted. Qed.
 Print Assumptions c06_after_noop_modifier_refuted.
+
+(* the static twin (known finding next to F6b): a contact STORED as non-active and still listed in a static group stays in
+   it after a directly applied modifier that changes nothing.  The sentence speaks of a contact that BECOMES non-active
+   (c06_after_modifier covers that); for a stored one only the conditional fourth conjunct above holds *)
+Theorem c06_after_noop_modifier_static_refuted :
+  exists E fresh m c c' evs,
+    wf_contact E c /\ mod_wf E m /\ apply E fresh m c = (c', evs, false) /\ ~ NoStaticIfInactive E c'.
+Proof. exact after_noop_modifier_static_refuted. Qed.
+Print Assumptions c06_after_noop_modifier_static_refuted.
 
 (* whenever the engine hands back a session: for every kind of engine call and every sequence of
    contact-changing actions, membership is right afterwards, whatever the stored membership of the starting or
@@ -87,18 +97,25 @@ Proof. exact sprint_no_static_full. Qed.
 Print Assumptions c06_no_static_groups_sprint_partial.
 
 (* As the code stands the engine evaluates queries in TWO environments: the session's at start/resume, the
-   contact-merged one (contact's time zone) inside modifiers.Apply (model: run_sprint2 Es Em).  If both agree on the
-   groups and on what every query says of every contact — in particular on the day of every instant a date condition
-   compares — the sprint clause holds for both ... *)
+   contact-merged one (contact's time zone) inside modifiers.Apply (model: run_sprint2 Es Em; only the group lists are
+   shared).  Without ANY agreement of the two evaluators: the events replay, and membership is right for one of the two
+   — the one whose re-evaluation ran last.  If the two agree on the groups' queries FOR THE CONTACT HANDED BACK (the
+   exact negation of finding F6d), membership is right for both. *)
 Theorem c06_after_sprint_two_env_partial : forall Es Em k acts c c' evs,
-  groups_env_agree Es Em ->
+  groups_shared Es Em ->
   wf_contact Em c -> kind_wf Em k -> Forall (fun fm => mod_wf Em (snd fm)) acts ->
   run_sprint2 Es Em k acts c = (c', evs) ->
-  same_contact (replay evs c) c' /\ Consistent Em c' /\ Consistent Es c'.
+  same_contact (replay evs c) c'
+  /\ (Consistent Es c' \/ Consistent Em c')
+  /\ ((forall g, In g (all_groups Em) -> uses_query Em g = true -> matches Es g (qview c') = matches Em g (qview c'))
+      -> Consistent Es c' /\ Consistent Em c').
 Proof. exact after_sprint_two_env. Qed.
 Print Assumptions c06_after_sprint_two_env_partial.
 
-(* ... and if they can disagree it is false (finding F6d, listed in KNOWN_FINDINGS.txt): the same resume without and
+(* ... and if they disagree on the contact handed back, "right for both" is false (finding F6d, listed in
+   KNOWN_FINDINGS.txt; the witness is abstract — two evaluators that differ — because the model's evaluator is a
+   parameter; the concrete input of the known: line, UTC vs Africa/Kigali with `last_seen_on = "2024-05-06"` at 23:30Z,
+   runs as an oracle-only scenario on every check): the same resume without and
    with an action that does not touch what the query reads leaves the contact in, resp. out of, the group —
    membership after a sprint depends on which re-evaluation ran last *)
 Theorem c06_after_sprint_two_env_refuted :
